@@ -26,6 +26,8 @@ pub struct L2State {
     pub bare_strip_pending: bool,
     /// roll-over scenario: no cap on the log length, observations read windows around the end and the file boundaries
     pub roll_mode: bool,
+    /// small log files through the verification hook: several real file switches inside an ordinary history
+    pub small_files: bool,
     pub dir: std::path::PathBuf,
 }
 
@@ -492,6 +494,18 @@ async fn run_phase_ops(h: &StoreHandle, st: &mut L2State, ops: &[LogOp], pos: &m
         }
         let check_last = !st.bare_strip_pending;
         observe(h, st, &what, check_last).await?;
+        if st.small_files {
+            let n = log_files_on_disk(&st.dir);
+            if n >= 2 {
+                st.labels.insert("small_files_two_or_more_log_files".into());
+            }
+            if n >= 3 {
+                st.labels.insert("small_files_three_or_more_log_files".into());
+            }
+            if st.m.files.len() >= 2 && st.labels.contains("truncation") {
+                st.labels.insert("small_files_truncation_with_several_files".into());
+            }
+        }
         if st.roll_mode {
             if st.m.rollovers > 0 {
                 st.labels.insert("real_rollover_predicted".into());
@@ -527,9 +541,15 @@ pub fn run_l2(case: &LogCase, dir: &std::path::Path) -> L2State {
         pointer_seen: false,
         bare_strip_pending: false,
         roll_mode: case.ops.iter().any(|o| matches!(o, LogOp::FillToRollover { .. })),
+        small_files: false,
         dir: dir.to_path_buf(),
     };
-    st.m.track_roll = st.roll_mode;
+    st.m.track_roll = st.roll_mode || case.index_area_limit.is_some();
+    if let Some(l) = case.index_area_limit {
+        // the caller (tier driver) has set the same limit process-wide through the verification hook
+        st.m.limit = l;
+        st.small_files = true;
+    }
     st.m.term = 1;
     let mut pos = 0usize;
     let mut err: Option<String> = None;
@@ -630,6 +650,7 @@ pub fn l2_case_report(case: &LogCase, profile: Profile) -> CaseReport {
                 && (has("record_ends_on_1024_from_scan_base")
                     || has("crosses_index_interval")
                     || has("second_log_file_on_disk")
+                    || has("small_files_two_or_more_log_files")
                     || has("truncation")
                     || has("compaction_pointer")
                     || has("install_pointer_within_log")
